@@ -31,6 +31,7 @@
 #include "../common/infra/AccessSpecifiers.h"
 
 #include <memory>
+#include <vector>
 
 namespace psy {
 namespace C {
@@ -64,6 +65,7 @@ private:
     const Type* uStrLitTy_;
     const Type* UStrLitTy_;
     const Type* LStrLitTy_;
+    std::vector<const TagDeclarationSymbol*> openTagTyDecls_;
 
     struct DiagnosticsReporter
     {
